@@ -111,6 +111,98 @@ func runC17(r *Report) {
 	if len(sites) < 2 { // alarm below 40% of the 6 sites confirmed by hand
 		r.Fail("R-C17-1", 0, fmt.Sprintf("only %d limit comparisons discovered (7 confirmed by hand)", len(sites)), "limits", "floor")
 	}
+	// capped tables: a map field whose length is compared with a limit.  Every insertion into such a
+	// table, in whatever function, is behind a cap test or replaces an entry that is already there
+	type capped struct {
+		typ, field, limit string
+		named           string
+	}
+	var cappedTabs []capped
+	for _, s := range sites {
+		c, _ := CallOfValue(stripValue(s.other))
+		if lc, ok := stripValue(s.other).(*ssa.Call); ok {
+			c = lc
+		}
+		if c == nil {
+			continue
+		}
+		if b, ok := c.Call.Value.(*ssa.Builtin); !ok || b.Name() != "len" {
+			continue
+		}
+		if t, mf, _, isF := FieldOf(c.Call.Args[0]); isF {
+			nm := fieldOwnerPath(c.Call.Args[0])
+			dup := false
+			for _, x := range cappedTabs {
+				if x.named == nm && x.field == mf {
+					dup = true
+				}
+			}
+			if !dup {
+				cappedTabs = append(cappedTabs, capped{t, mf, s.limit, nm})
+			}
+		}
+	}
+	for _, ct := range cappedTabs {
+		nIns := 0
+		for _, f := range r.P.Funcs {
+			if len(f.Blocks) == 0 {
+				continue
+			}
+			Instrs(f, func(in ssa.Instruction) {
+				mu, ok := in.(*ssa.MapUpdate)
+				if !ok {
+					return
+				}
+				t, mf, _, isF := FieldOf(mu.Map)
+				if !isF || t != ct.typ || mf != ct.field || fieldOwnerPath(mu.Map) != ct.named {
+					return
+				}
+				nIns++
+				okIns, why := false, ""
+				// the function's own cap test on this table comes first (its refusal edge is checked by the
+				// limit rules above; `limit > 0 && len >= limit` leaves no single dominating edge)
+				for _, s2 := range sites {
+					if s2.fn != f || s2.limit != ct.limit {
+						continue
+					}
+					if s2.cmp.Block() == in.Block() && Before(s2.cmp, in) || (s2.cmp.Block() != in.Block() && CanReachBlock(s2.cmp.Block(), in.Block()) && !CanReachBlock(in.Block(), s2.cmp.Block())) {
+						okIns, why = true, "after this function's cap test"
+					}
+				}
+				for _, ft := range Facts(in.Block()) {
+					// a cap test on this table on the way here
+					if bo, isB := ft.Cond.(*ssa.BinOp); isB {
+						for _, side := range []ssa.Value{bo.X, bo.Y} {
+							if lc, _ := CallOfValue(side); lc != nil {
+								if b, ok := lc.Call.Value.(*ssa.Builtin); ok && b.Name() == "len" {
+									if t2, f2, _, ok := FieldOf(lc.Call.Args[0]); ok && t2 == ct.typ && f2 == ct.field {
+										okIns, why = true, "behind a test of the table's length"
+									}
+								}
+							}
+							if lc, ok := stripValue(side).(*ssa.Call); ok {
+								if b, ok := lc.Call.Value.(*ssa.Builtin); ok && b.Name() == "len" {
+									if t2, f2, _, ok := FieldOf(lc.Call.Args[0]); ok && t2 == ct.typ && f2 == ct.field {
+										okIns, why = true, "behind a test of the table's length"
+									}
+								}
+							}
+						}
+					}
+					// the key is already in the table (comma-ok lookup took the found edge): a replacement
+					if ex, isE := ft.Cond.(*ssa.Extract); isE && ft.Pol && ex.Index == 1 {
+						if lk, isL := ex.Tuple.(*ssa.Lookup); isL {
+							if t2, f2, _, ok := FieldOf(lk.X); ok && t2 == ct.typ && f2 == ct.field && (lk.Index == mu.Key || sameExpr(lk.Index, mu.Key)) {
+								okIns, why = true, "replaces an entry that is already present"
+							}
+						}
+					}
+				}
+				r.Ob("R-C17-1", in.Pos(), okIns, fmt.Sprintf("insertion into %s.%s (capped by %s) is behind a cap test or replaces an existing entry%s", ct.typ, ct.field, ct.limit, map[bool]string{true: ": " + why, false: ": an insert elsewhere grows the table past its cap"}[okIns]), r.P.FuncName(f), "capped-insert:"+ct.typ+"."+ct.field)
+			})
+		}
+		r.Note("R-C17-1: capped table %s.%s (%s): %d insertion site(s)", ct.typ, ct.field, ct.limit, nIns)
+	}
 	for _, s := range sites {
 		fn := r.P.FuncName(s.fn)
 		key := []string{fn, "limit:" + s.limit}
@@ -635,4 +727,17 @@ func counterDeltas(h *ssa.Function, field string) (okDeltas, errDeltas []int64, 
 		errDeltas = append(errDeltas, k)
 	}
 	return
+}
+
+// fieldOwnerPath: package path + type name of the struct whose field the value is loaded from.
+func fieldOwnerPath(v ssa.Value) string {
+	v = stripValue(v)
+	if u, ok := v.(*ssa.UnOp); ok {
+		v = u.X
+	}
+	fa, ok := v.(*ssa.FieldAddr)
+	if !ok {
+		return ""
+	}
+	return structKey(fa.X.Type())
 }
